@@ -16,6 +16,7 @@ class Client:
         self.addttl = 0
         self.rwin = self.rwout = None
         self.rwuser = None      # (regex, repl)
+        self.xtype = None       # transport type given to the parsed block afterwards (T_TLS / T_DTLS): see harness cfg peertype
         self.reqma = self.reqmap = False
 
 class Server:
@@ -147,9 +148,12 @@ class Cfg:
         l.append('cfg options ttl0=%d ttl1=%d addttl=%d loopprev=%d verifyeap=%d' % (t0, t1, self.addttl, self.loopprev, self.verifyeap))
         for c in self.clients:
             l.append('cfg client %d name=%s type=%d secret=%s dupint=%d addttl=%d rwin=%s rwout=%s rwuser=%s reqma=%d reqmap=%d' % (
-                c.idx, hx(c.name.encode()), c.type, hx(c.secret), 10 if c.dupint is None else c.dupint, c.addttl,
+                c.idx, hx(c.name.encode()), c.type if c.xtype is None else c.xtype, hx(c.secret), 10 if c.dupint is None else c.dupint, c.addttl,
                 c.rwin.name if c.rwin else '-', c.rwout.name if c.rwout else '-',
                 hx(c.rwuser[1].encode('latin-1')) if c.rwuser else '-', c.reqma, c.reqmap))
+        for c in self.clients:
+            if c.xtype is not None:
+                l.append('cfg peertype cl %d %d' % (c.idx, c.xtype))
         for s in self.servers:
             if s.dyn:
                 continue
@@ -180,6 +184,8 @@ def random_cfg(rng, rich=True):
     for i in range(rng.randrange(1, 4)):
         c = Client(i, names[i])
         c.type = rng.choice([T_UDP, T_UDP, T_TCP])
+        if rng.random() < 0.15:
+            c.xtype = rng.choice([T_TLS, T_DTLS])
         c.secret = rbytes(rng, rng.choice([1, 7, 16, 17, 64, 65, 100])) if rng.random() < 0.5 else c.secret
         if rng.random() < 0.12:
             c.secret = b'Xy\x00' + rbytes(rng, 6)        # an escaped NUL octet is a legal part of a secret
